@@ -398,7 +398,27 @@ def partition_K_rule(ctx, rule):
         solved = {t.id for n in walk_no_nested(f.node) if isinstance(n, ast.Assign) and isinstance(n.value, ast.Call)
                   for t in n.targets if isinstance(t, ast.Name)}
         xs = []
+        # locals that only abbreviate an arithmetic expression of other names (bottom_fraction = 1 - phi) are read through
+        from ..resolve import resolved as _resolved
+        cnt_ = {}
         for n in walk_no_nested(f.node):
+            if isinstance(n, ast.Name) and isinstance(n.ctx, ast.Store):
+                cnt_[n.id] = cnt_.get(n.id, 0) + 1
+        abbrev = {n.targets[0].id: n.value for n in walk_no_nested(f.node) if isinstance(n, ast.Assign) and len(n.targets) == 1
+                  and isinstance(n.targets[0], ast.Name) and cnt_.get(n.targets[0].id) == 1 and n.targets[0].id not in f.params
+                  and isinstance(n.value, ast.BinOp) and not any(isinstance(m, (ast.Call, ast.Subscript)) for m in ast.walk(n.value))
+                  and len({m.id for m in ast.walk(n.value) if isinstance(m, ast.Name)}) == 1}
+        import copy as _copy
+        stmts_ = []
+        for n in walk_no_nested(f.node):
+            if isinstance(n, ast.Assign) and isinstance(n.value, ast.BinOp) and isinstance(n.targets[0], ast.Name) and n.targets[0].id not in abbrev:
+                # a shallow stand-in of the statement with the abbreviations expanded (the program tree itself is left alone)
+                n2 = ast.Assign(targets=n.targets, value=_resolved(n.value, abbrev, keep=set(f.params)))
+                ast.copy_location(n2, n)
+                ast.fix_missing_locations(n2)
+                n2._parent = getattr(n, '_parent', None)
+                stmts_.append(n2)
+        for n in stmts_:
             if isinstance(n, ast.Assign) and isinstance(n.value, ast.BinOp) and isinstance(n.value.op, ast.Div) and isinstance(n.targets[0], ast.Name):
                 names = {m.id for m in ast.walk(n.value.right) if isinstance(m, ast.Name)}
                 if len(names) == 2 and len(names & solved) == 1 and (names - solved) <= set(f.params):
@@ -416,7 +436,7 @@ def partition_K_rule(ctx, rule):
         else:
             rule.fail(fname, 'K-denominator', 'the denominator is %s; top/bottom = K*phi/(1-phi) needs D = phi*K + 1 - phi' % D.pretty(), f, st)
         # bottom = x (1 - phi) F
-        bs = [n for n in walk_no_nested(f.node) if isinstance(n, ast.Assign) and isinstance(n.targets[0], ast.Name)
+        bs = [n for n in stmts_ if isinstance(n, ast.Assign) and isinstance(n.targets[0], ast.Name)
               and any(isinstance(m, ast.Name) and m.id == xname for m in ast.walk(n.value)) and n is not st]
         good = False
         for b in bs:
